@@ -133,6 +133,15 @@ class LiveCtx(Ctx):
     def handler(self, h):
         if h.get('exactOnly'):
             d = {self.head_type(head): self.custom(cid) for head, cid in h['entries']}
+            if h.get('share'):
+                # ONE long-lived mapping object passed to several calls, its contents CHANGED in between: the handlers of a
+                # call are what the mapping holds at that call
+                live = self.shared_fns.get(h['share'])
+                if live is None:
+                    self.shared_fns[h['share']] = live = {}
+                live.clear()
+                live.update(d)
+                d = live
             self.handler_desc[id(d)] = h
             return d
         if h.get('share') and h['share'] in self.shared_fns:
@@ -174,9 +183,10 @@ class LiveCtx(Ctx):
             dflt = f.get('default')
             if 'converter' in spec:
                 spec['converter'] = self.custom(spec['converter'])
+            as_list = spec.pop('in_names_as_list', False)
             for k in ('in_names', 'aliases'):
                 if k in spec and spec[k] is not None:
-                    spec[k] = tuple(spec[k])
+                    spec[k] = list(spec[k]) if (as_list and k == 'in_names') else tuple(spec[k])
             if spec:
                 if dflt is not None:
                     if 'value' in dflt:
@@ -193,6 +203,8 @@ class LiveCtx(Ctx):
         ns['__module__'] = __name__
         if d.get('explicit_hash'):
             ns['__hash__'] = lambda self: 7
+        if d.get('explicit_eq'):
+            ns['__eq__'] = lambda self, other: self is other
         if d.get('hook'):
             ns['__post_init__'] = hook_fn(d['hook'])
         bases = []
@@ -690,6 +702,11 @@ def snapshot(x, memo=None):
         return (type(x).__name__, id(x), tuple(sorted((repr(v) for v in x))))
     if isinstance(x, bytearray):
         return ('bytearray', bytes(x))
+    if isinstance(x, PaneBase):
+        # a dataclass instance: the attributes it HAS (a serialiser must not give it new ones) and their values
+        own = getattr(x, '__dict__', None) or {}
+        return ('obj', id(x), type(x).__name__, tuple(sorted((k, snapshot(v)) for k, v in own.items() if k != '__pane_set__')),
+                tuple(sorted(getattr(x, '__pane_set__', ()))))
     if isinstance(x, float) and x != x:
         return ('nan',)
     return (type(x).__name__, repr(x))
@@ -802,6 +819,10 @@ def run(scen, ctx):
                 orc['rep'] = f'the same conversion of the same object gave {json.dumps(first)[:160]} and then {json.dumps(again)[:160]}'
         if snapshot(val) != snap:
             orc['c09'] = f'the argument was modified: now {val!r}'
+        if scen.get('expect') and op == 'from_data' and isinstance(out, dict):
+            got = 'accept' if 'value' in out else 'reject' if 'convertError' in out else None
+            if got and got != scen['expect']:
+                orc['expect'] = f"the value should be {scen['expect']}ed by this type (by the kinds of its leaves alone) but was {got}ed: {json.dumps(out)[:200]}"
         orc.update(scen.get('_oracle_pre') or {})
         scen['_oracle'] = orc
         return out
@@ -841,10 +862,14 @@ def run(scen, ctx):
             return {'raises': map_exc(e)}
     if op == 'into_dyn':
         val = ctx.dec(scen['val'])
+        snap = snapshot(val)
         try:
-            return {'ok': ctx.enc(pane.into_data(val))}
+            out = {'ok': ctx.enc(pane.into_data(val))}
         except BaseException as e:  # noqa
-            return {'raises': map_exc(e)}
+            out = {'raises': map_exc(e)}
+        if snapshot(val) != snap:
+            scen['_oracle'] = {'c09': f'into_data modified its argument: now {val!r} with attributes {sorted(getattr(val, "__dict__", {}))}'}
+        return out
     if op == 'rename':
         from pane.field import rename_field
         try:
@@ -897,6 +922,9 @@ def run_process(scen):
         act = 'makeHash'
     else:
         act = 'leave'
+    last = scen['decls'][-1]
+    if last.get('explicit_eq') and not last.get('explicit_hash') and h is None:
+        act = 'noneImplicit'      # Python's implicit `__hash__ = None` of a class that defines __eq__: indistinguishable from "set to None"
     return ctx, {'class': out, 'hashAction': act}
 
 
@@ -1015,6 +1043,12 @@ def c14_oracle(ctx, cls, args, kwargs):
             bound = {}
         if set(o.__pane_set__) != set(bound):
             return f'set-field record {sorted(o.__pane_set__)} is not the supplied fields {sorted(bound)}'
+        try:
+            view = o.dict(set_only=True)
+        except BaseException as e:  # noqa
+            view = None
+        if view is not None and set(view) != set(bound):
+            return f'dict(set_only=True) has {sorted(view)}, the supplied fields are {sorted(bound)}'
         b = attempt(lambda: cls(*args, **kwargs))
         for f in info.fields:
             if f.init and f.name not in bound:
@@ -1539,7 +1573,7 @@ TYPE_POOL = [lambda: list[int], lambda: dict[str, float], lambda: list[str], lam
              # unions whose members overlap: which member answers must not depend on what the converter saw before
              lambda: datetime.date | str, lambda: _pos_or_float(), lambda: list[datetime.date | str]]
 # several sample values per type; a call converts ONE of them (chosen by the history)
-SAMPLES = [[[1, 2], [3]], [{'k': 1.5}, {}], [['s'], []], [[3, 's'], [4, 't']], [[4, 't'], [5, 'u']], [{'a': 5}, {'a': 6}], [[6], [7, 7]],
+SAMPLES = [[[1, 2], [3]], [{'k': 1.5}, {}], [['s'], []], [[3, 's'], [4, 't']], [[4, 't'], [5, 'u']], [{'a': 5}, {}, {'a': 6}], [[6], [7, 7]],
            [{'k': [7]}, {}], [8, None], [[1.5], [2]], [{'k': 9}, {'j': 1}], [[10, 11], []],
            [{'a': 1, 'b': 2.5, 'c': 'x'}, {'a': 2, 'b': 1, 'c': 'y'}], [{'a': 1, 'b': 2.5, 'c': 'x'}, {'a': 1, 'b': 2.5, 'c': 'x'}], [12, 13],
            ['to be announced', '2024-02-29', 'tbd'], [-3, 5, 2.5], [['to be announced', '2024-02-29'], ['2024-02-29'], ['x']]]
